@@ -83,8 +83,18 @@ def draw_states(st, run_index, like=None):
                 v = rng.standard_normal(d) + (1j * rng.standard_normal(d) if cplx else 0)
             v = v / np.linalg.norm(v)
             L.append(v.reshape(d, 1) if kind == "kets" else v)
-    pk = st.weighted([("uniform", 2), ("random", 3), ("default_none", 1)])
-    if pk == "random":
+    pk = st.weighted([("uniform", 2), ("random", 3), ("default_none", 1), ("with_zero", 1)])
+    if pk == "with_zero" and n >= 3:
+        # a state that is listed but never prepared: an exact zero in the prior, at any position
+        w = rng.random(n) + 0.05
+        w[st.draw(n)] = 0.0
+        probs = list((w / w.sum()).tolist())
+        probs[int(np.argmax(probs))] += 1.0 - sum(probs)
+    elif pk == "with_zero":
+        pk = "random"
+    if pk == "with_zero":
+        pass
+    elif pk == "random":
         w = rng.random(n) + 0.05
         probs = list((w / w.sum()).tolist())
         probs[-1] = 1.0 - sum(probs[:-1])
